@@ -161,3 +161,134 @@ def selftest():
     u = np.stack([np.sin(ph) * np.cos(th), np.sin(ph) * np.sin(th), np.cos(ph)], axis=1)
     if np.max(np.abs(real_sph_harm(8, th, ph) - real_sph_harm_xyz(8, u))) > 1e-13:
         raise AssertionError("sph oracle self-test: xyz and angle variants disagree")
+
+
+# ---------------------------------------------------------------------------
+# additions for C08 / C14: reference derivatives, explicit low-degree solid harmonics
+# ---------------------------------------------------------------------------
+def mp_real_sph_harm_derivs(l_max, theta, phi, dps=60):
+    """(d/dtheta, d/dphi) of every reference harmonic at ONE point, as two dicts {(l,m): mpf}.
+
+    Numerical differentiation of ``mp_real_sph_harm`` itself (symmetric difference, step
+    10^(-dps/3), carried out at ``dps`` digits: truncation ~ l^3 10^(-2 dps/3), rounding
+    ~ 10^(-2 dps/3)), i.e. no derivative formula is typed in.  ``selftest`` compares it
+    with ``mp.diff`` of single harmonics.
+    """
+    import mpmath as mp
+
+    with mp.workdps(dps):
+        h = mp.mpf(10) ** (-(dps // 3))
+        th, ph = mp.mpf(theta), mp.mpf(phi)
+        tp = mp_real_sph_harm(l_max, th + h, ph, dps=dps)
+        tm = mp_real_sph_harm(l_max, th - h, ph, dps=dps)
+        pp = mp_real_sph_harm(l_max, th, ph + h, dps=dps)
+        pm = mp_real_sph_harm(l_max, th, ph - h, dps=dps)
+        dth = {k: (tp[k] - tm[k]) / (2 * h) for k in tp}
+        dph = {k: (pp[k] - pm[k]) / (2 * h) for k in pp}
+    return dth, dph
+
+
+def regular_solid_explicit(xyz):
+    """Racah-normalised real regular solid harmonics R_lm = sqrt(4pi/(2l+1)) r^l Y_lm for l <= 3
+    as explicit Cartesian polynomials (textbook table, e.g. Helgaker/Joergensen/Olsen table 6.3),
+    rows in Horton-2 order; shape (16, N).  Independent of every recurrence in this file."""
+    x, y, z = np.asarray(xyz, dtype=float).T
+    r2 = x * x + y * y + z * z
+    s3, s15 = math.sqrt(3.0), math.sqrt(15.0)
+    s38, s58 = math.sqrt(3.0 / 8.0), math.sqrt(5.0 / 8.0)
+    return np.array(
+        [
+            np.ones_like(x),
+            z,
+            x,
+            y,
+            (3 * z * z - r2) / 2,
+            s3 * x * z,
+            s3 * y * z,
+            s3 / 2 * (x * x - y * y),
+            s3 * x * y,
+            z * (5 * z * z - 3 * r2) / 2,
+            s38 * x * (5 * z * z - r2),
+            s38 * y * (5 * z * z - r2),
+            s15 / 2 * z * (x * x - y * y),
+            s15 * x * y * z,
+            s58 * x * (x * x - 3 * y * y),
+            s58 * y * (3 * x * x - y * y),
+        ]
+    )
+
+
+def solid_harm_xyz(l_max, xyz):
+    """Regular solid harmonics sqrt(4pi/(2l+1)) r^l Y_lm at Cartesian displacement vectors (N,3),
+    ((l_max+1)^2, N), from the float recurrence at the unit vectors (r = 0: only l = 0 survives)."""
+    d = np.asarray(xyz, dtype=float).reshape(-1, 3)
+    r = np.sqrt(np.sum(d * d, axis=1))
+    unit = np.where(r[:, None] > 0, d / np.where(r > 0, r, 1.0)[:, None], np.array([0.0, 0.0, 1.0]))
+    y = real_sph_harm_xyz(l_max, unit)
+    out = np.empty_like(y)
+    for l in range(l_max + 1):
+        rl = np.ones_like(r) if l == 0 else r**l
+        out[l * l : (l + 1) ** 2] = math.sqrt(4.0 * math.pi / (2 * l + 1)) * rl * y[l * l : (l + 1) ** 2]
+    return out
+
+
+def selftest_extra():
+    """Self-checks of the additions (explicit table vs recurrence, difference quotient vs mp.diff)."""
+    import mpmath as mp
+
+    pts = np.array([[0.3, -1.2, 0.7], [0.0, 0.0, 2.0], [0.0, 0.0, -1.5], [1.0, 0.0, 0.0], [-0.4, 0.9, 0.0], [0.0, 0.0, 0.0], [-2.0, -0.1, -0.3]])
+    a = regular_solid_explicit(pts)
+    b = solid_harm_xyz(3, pts)
+    if np.max(np.abs(a - b)) > 1e-13 * 30:
+        raise AssertionError(f"sph oracle self-test: explicit solid harmonics disagree with the recurrence ({np.max(np.abs(a - b)):.2e})")
+    th, ph = 0.7, 1.9
+    dth, dph = mp_real_sph_harm_derivs(5, th, ph)
+    with mp.workdps(40):  # mp.diff raises the precision itself; the integrand must not round its argument
+
+        for l, m in [(0, 0), (1, 0), (2, 1), (3, -2), (5, 4), (5, -5), (4, 0)]:
+            rt = mp.diff(lambda t: mp_real_sph_harm(l, t, mp.mpf(ph), dps=150)[(l, m)], mp.mpf(th))
+            rp = mp.diff(lambda p: mp_real_sph_harm(l, mp.mpf(th), p, dps=150)[(l, m)], mp.mpf(ph))
+            if abs(rt - dth[(l, m)]) > mp.mpf(10) ** -25 or abs(rp - dph[(l, m)]) > mp.mpf(10) ** -25:
+                raise AssertionError(f"sph oracle self-test: difference quotient vs mp.diff at l={l} m={m}")
+
+
+def real_sph_harm_ld(l_max, theta, phi):
+    """Same definition and recurrence as ``real_sph_harm`` but carried out in ``np.longdouble``
+    (coefficients, cos/sin of the polar angle, m*theta), returned as float64.
+
+    With double precision cos(phi) the m=0..few columns lose up to eps*l^2/2 relative to S_l within
+    ~1/l of the poles (P_l'(1) = l(l+1)/2); in extended precision the reference error stays below
+    eps(double)*S_l for l <= 400 (validated against ``mp_real_sph_harm`` in C08's ``mp`` sub-check).
+    On platforms where longdouble == double this silently degrades to ``real_sph_harm`` accuracy.
+    """
+    ld = np.longdouble
+    theta = np.atleast_1d(np.asarray(theta, dtype=float)).astype(ld)
+    phi = np.atleast_1d(np.asarray(phi, dtype=float)).astype(ld)
+    ct, st = np.cos(phi), np.sin(phi)
+    out = np.zeros(((l_max + 1) ** 2, theta.size))
+    s2 = np.sqrt(ld(2))
+    one = ld(1)
+    pi_ld = 4 * np.arctan(one)
+    pmm = np.full(ct.shape, np.sqrt(one / (4 * pi_ld)), dtype=ld)
+    for m in range(0, l_max + 1):
+        if m > 0:
+            pmm = pmm * st * np.sqrt(ld(2 * m + 1) / ld(2 * m))
+            cm, sm = s2 * np.cos(m * theta), s2 * np.sin(m * theta)
+        pl2 = pmm
+        cols = [(m, pl2)]
+        if m + 1 <= l_max:
+            pl1 = np.sqrt(ld(2 * m + 3)) * ct * pmm
+            cols.append((m + 1, pl1))
+            for l in range(m + 2, l_max + 1):
+                a = np.sqrt(ld(4 * l * l - 1) / ld(l * l - m * m))
+                b = np.sqrt(ld((l - 1) ** 2 - m * m) / ld(4 * (l - 1) ** 2 - 1))
+                p = a * (ct * pl1 - b * pl2)
+                cols.append((l, p))
+                pl2, pl1 = pl1, p
+        for l, p in cols:
+            if m == 0:
+                out[row_index(l, 0)] = p.astype(float)
+            else:
+                out[row_index(l, m)] = (p * cm).astype(float)
+                out[row_index(l, -m)] = (p * sm).astype(float)
+    return out
